@@ -285,9 +285,22 @@ def _line_body_of_concat(interp, whole, parts):
         st._add(ax)
 
 
+def _skip_concat(interp, whole, parts):
+    """(law switched off) the concatenation is remembered as dealt with: a later activation does not go back to it"""
+    if len(parts) >= 2 and not z3.is_string_value(parts[-1]):
+        interp.st.ghost.setdefault(('__lb_concat__', whole.get_id(), parts[-1].get_id()), (whole, parts[-1]))
+
+
+def m_line_body_over_concat_off(interp, args, kwargs):
+    """spec function (returns True): from here on the law of `line_body_over_concat()` is NOT instantiated at the
+    concatenations that are made (until it is switched on again) -- fewer hypotheses where it is not needed"""
+    interp.st.ghost['__on_concat__'] = _skip_concat
+    return True
+
+
 def _activate_line_body(interp):
     st = interp.st
-    if st.ghost.get('__on_concat__') is None:
+    if st.ghost.get('__on_concat__') is not _line_body_of_concat:
         st.ghost['__on_concat__'] = _line_body_of_concat
         for whole, parts in list(st.ghost.get('__explicit_concats__', [])):
             _line_body_of_concat(interp, whole, parts)
